@@ -1511,6 +1511,9 @@ func (g *gen) siteAnalysis() {
 			fmt.Sscanf(name[i+1:], "%d", &k)
 			name = name[:i]
 		}
+		if name == "return" {
+			continue
+		}
 		if len(byName[name]) == 0 || k > len(byName[name]) {
 			g.curGuard = "true"
 			g.oblige("site", s.Site+" (the contract names a call this function does not make)", g.fn.Pos(), "false", s.Props)
